@@ -258,7 +258,8 @@ def fce_step(idx: int) -> bool:
         return True
     got = _call(op, l, r)
     xs.reached()
-    desc = f"{CALLBACKS[op]}({lk}:{lv} fce={lfce!r}, {rk}:{rv} fce={rfce!r})"
+    with xs.nt():
+        desc = f"{CALLBACKS[op]}({lk}:{lv} fce={lfce!r}, {rk}:{rv} fce={rfce!r})"
     if got[0] != "ok":
         return xs.fail(f"{desc} raised {type(got[1]).__name__}", idx=idx)
     fce = got[1].format_constraints_expression
